@@ -79,6 +79,13 @@ type Hooks struct {
 	After func(op *Op)
 	// Split returns where to split a write of n bytes (0 or n: no split).
 	Split func(n int) int
+	// Read runs ahead of read-side operations that a concurrent writer can race
+	// with: "readdir" (path: the directory) and "info" (path: the entry whose
+	// attributes are about to be read through a DirEntry of an earlier listing).
+	// The harness may change the file system inside the hook (another process
+	// working in the directory at that instant); a non-nil error is returned to
+	// the caller instead of performing the operation.
+	Read func(kind, path string) error
 }
 
 var hooks *Hooks
@@ -117,7 +124,42 @@ func do(kind, path, path2 string, n int, f func() error) error {
 func ReadFile(name string) ([]byte, error)       { return os.ReadFile(name) }
 func Stat(name string) (FileInfo, error)         { return os.Stat(name) }
 func Lstat(name string) (FileInfo, error)        { return os.Lstat(name) }
-func ReadDir(name string) ([]DirEntry, error)    { return os.ReadDir(name) }
+func UserCacheDir() (string, error)              { return os.UserCacheDir() }
+func UserConfigDir() (string, error)             { return os.UserConfigDir() }
+
+// ReadDir lists a directory. With a Read hook installed the entries remember
+// where they came from, so that Info — a second look at the file system, at a
+// later instant — goes through the hook as well.
+func ReadDir(name string) ([]DirEntry, error) {
+	h := hooks
+	if h == nil || h.Read == nil {
+		return os.ReadDir(name)
+	}
+	if err := h.Read("readdir", name); err != nil {
+		return nil, &os.PathError{Op: "readdir", Path: name, Err: err}
+	}
+	ents, err := os.ReadDir(name)
+	out := make([]DirEntry, len(ents))
+	for i, e := range ents {
+		out[i] = hookedEntry{e, name}
+	}
+	return out, err
+}
+
+type hookedEntry struct {
+	fs.DirEntry
+	dir string
+}
+
+func (e hookedEntry) Info() (FileInfo, error) {
+	if h := hooks; h != nil && h.Read != nil {
+		p := e.dir + "/" + e.Name()
+		if err := h.Read("info", p); err != nil {
+			return nil, &os.PathError{Op: "lstat", Path: p, Err: err}
+		}
+	}
+	return e.DirEntry.Info()
+}
 func Readlink(name string) (string, error)       { return os.Readlink(name) }
 func Getwd() (string, error)                     { return os.Getwd() }
 func Getenv(key string) string                   { return os.Getenv(key) }
